@@ -26,7 +26,10 @@ def section(text, *names):
 
 def main():
     rows = []
-    for d in sorted((VERIF / "seeded").iterdir()):
+    def natural(p):
+        a, b = p.name.split("-") if "-" in p.name else (p.name, "x0")
+        return (a, b[0], int(b[1:]) if b[1:].isdigit() else 0)
+    for d in sorted((VERIF / "seeded").iterdir(), key=natural):
         if not d.is_dir():
             continue
         log = LOGS / d.name
@@ -72,8 +75,19 @@ def main():
         print("| seeded change | what it does | caught by quick check | how | note |")
         print("|---|---|---|---|---|")
         for n, t, det, how, note in rows:
-            t = re.sub(r"^C\d\d\s*/\s*m\d\s*[-—:]*\s*", "", t)
-            print(f"| {n} | {t} | {'yes' if det else 'NO' if det is not None else '?'} | {how or ''} | {note} |")
+            if "-h" in n:
+                continue
+            t = re.sub(r"^C\d\d\s*/\s*m\d+\s*[-—:]*\s*", "", t)
+            moot = json.loads((VERIF / "seeded" / n / "meta.json").read_text()).get("moot")
+            print(f"| {n} | {t} | {'n/a' if moot else 'yes' if det else 'NO' if det is not None else '?'} | {how or ''} | {note} |")
+    if "--harmless" in sys.argv:
+        print("| harmless refactoring | what it does | quick check stays silent | note |")
+        print("|---|---|---|---|")
+        for n, t, det, how, note in rows:
+            if "-h" not in n:
+                continue
+            t = re.sub(r"^C\d\d\s*/\s*h\d+\s*[-—:]*\s*", "", t)
+            print(f"| {n} | {t} | {'yes' if det is False else 'NO (' + str(how) + ')' if det else '?'} | {note} |")
 
 
 if __name__ == "__main__":
